@@ -347,8 +347,17 @@ def run_episodes(outer, get_inner, space, action_space, episodes, calls, single)
             if act is None:
                 break
             try:
-                st = outer.step(act)
-                o, exc = st[0], 0
+                if single and len(pick) > 2 and pick[2]:
+                    # the caller dispatches on the environment's public dispatcher between two steps and then
+                    # asks for the observation: for the model one more (dispatch, observation); no step tuple
+                    d = inner.dispatcher
+                    op = d.next_operation(act[0])
+                    d.dispatch(op, op.machine_id if act[1] == -1 else act[1])
+                    st = None
+                    o, exc = outer.get_observation(), 0
+                else:
+                    st = outer.step(act)
+                    o, exc = st[0], 0
             except ValidationError:
                 st, o, exc = None, None, 1
             except Exception as e:  # pylint: disable=broad-except
@@ -577,7 +586,9 @@ class C18(Check):
 
     @staticmethod
     def gen_picks(rng, n_eps, n_steps):
-        return [[[rng.randrange(6), rng.choice([-1, 0, 1, 2])] for _ in range(n_steps)] for _ in range(n_eps)]
+        # a third element 1 = this decision is dispatched directly on env.dispatcher (single environments)
+        return [[[rng.randrange(6), rng.choice([-1, 0, 1, 2])] + ([1] if rng.random() < 0.08 else [])
+                 for _ in range(n_steps)] for _ in range(n_eps)]
 
     def gen_single(self, rng):
         big = self.tier == "thorough" and rng.random() < 0.3
